@@ -86,9 +86,11 @@ pub fn eval(c: &Case) -> (Vec<(String, String)>, String) {
     };
     let five = p.dof == 5 || c.entry == Entry::Continuing5;
     let upto = if five { 5 } else { 6 };
-    // (a) nearest representative
+    // (a) nearest representative. J6 of a 5-DOF solve is the value carried over from the previous vector (trivially
+    // nearest); under the sentinel the reference is the centre of the J6 range and the carried value must be
+    // reported as its representative nearest to that centre, like every other angle
     for s in &sols {
-        for i in 0..upto {
+        for i in 0..6 {
             let d = (s[i] - reference[i]).abs();
             if !(d <= PI * (1.0 + 1e-12)) {
                 fails.push((
